@@ -821,6 +821,11 @@ class Interp:
             return st.alloc("set", [])
         if factory == "int":
             return K(0)
+        hook = getattr(self, "on_default_factory", None)
+        if hook is not None:
+            v_h = hook(factory, st)
+            if v_h is not None:
+                return v_h
         return U("default factory " + factory)
 
     def heap_call(self, e: ast.Call, fname: Optional[str], fval: Optional[V], args: List[V], kwargs: Dict[str, V], st: State) -> Optional[V]:
